@@ -58,6 +58,15 @@ def tmpl(a):
     raise ValueError("format template is not constant")
 
 
+def idx_ty(v):
+    """type tag of the constant in `counter + 1`"""
+    if isinstance(v, tuple) and v and v[0] == "bin":
+        for x in v[2:]:
+            if x[0] == "int":
+                return x[2]
+    return "usize"
+
+
 def writes(L, p):
     out = []
     pend = []
@@ -211,9 +220,10 @@ def run(ctx):
                           sample={"writer": "char(piece_on(sq)) upper iff White"} if piece_writes == 1 else None)
                 if okpiece:
                     fl, rk = sq[1], sq[2]
+                    is_rev = lambda y: (y[0] == "call" and y[1].endswith("::rev")) or y[0] == "rev"
                     asc_files = sym.contains(fl, lambda y: y[0] == "array" and len(y[1]) == 8 and [x[2] for x in y[1]] == list("ABCDEFGH")) and \
-                        not sym.contains(fl, lambda y: y[0] == "call" and y[1].endswith("::rev"))
-                    desc_ranks = sym.contains(rk, lambda y: y[0] == "call" and y[1].endswith("Iterator::rev")) and \
+                        not sym.contains(fl, is_rev)
+                    desc_ranks = sym.contains(rk, is_rev) and \
                         sym.contains(rk, lambda y: y[0] == "array" and len(y[1]) == 8 and y[1][0][2] == "First")
                     ctx.check(asc_files and desc_ranks, "writer:walk-order", "the writer does not walk ranks 8->1 (reversed Rank::ALL) and files a->h (File::ALL)", where,
                               sample={"walk": "ranks reversed, files ascending"} if piece_writes == 1 else None)
@@ -259,13 +269,59 @@ def run(ctx):
                 okp = bool(ch) and sym.contains(piece, lambda y: y[0] == "call" and y[1].endswith("TryInto<U>>::try_into"))
                 cchar = ch[0][2][0] if ch else None
                 up = [c for c in p.conds if c[0][0] == "call" and c[0][1] == "char::is_ascii_uppercase" and cchar is not None and c[0][2][0] == cchar]
-                okc = bool(up) and ((colour == ("enum", COLOR, "White")) == bool(up[-1][1]))
+                if up:
+                    is_up = bool(up[-1][1])
+                else:
+                    # the case decided by comparing the character with 'A'..'Z'
+                    from ..ranges import Ranger
+                    cv = cchar
+                    while cv is not None and cv[0] in ("ref", "deref"):
+                        cv = cv[1]
+                    bd = Ranger(f, {cv: "char"} if cv is not None else {}).bounds(cv, p.conds) if cv is not None else None
+                    is_up = None
+                    if bd is not None and bd[0] is not None and bd[1] is not None:
+                        if bd[0] > bd[1]:
+                            nplace -= 1
+                            continue        # contradictory comparisons: no character takes this path
+                        if 65 <= bd[0] and bd[1] <= 90:
+                            is_up = True
+                        elif bd[1] < 65 or bd[0] > 90:
+                            is_up = False
+                okc = is_up is not None and ((colour == ("enum", COLOR, "White")) == is_up)
                 ctx.check(okp and okc, "reader:piece-letter",
                           "the reader does not place table^-1(lowercase(char)) with colour White exactly for upper-case chars", loc(pb),
                           sample={"reader": "piece = lowercase(c).try_into(), White iff c.is_ascii_uppercase()"} if nplace == 1 else None)
                 # rank from rsplit+enumerate, via try_index
                 okr = sq[0] == "sq" and sym.contains(sq[2], lambda y: y[0] == "call" and y[1].endswith("Rank::try_index")) and \
                     sym.contains(sq[2], lambda y: y[0] == "call" and y[1] == "str::rsplit") and sym.contains(sq[2], lambda y: y[0] == "call" and y[1].endswith("Iterator::enumerate"))
+                if not okr and sq[0] == "sq":
+                    # the same index kept by hand: a counter that is 0 before the loop over the rsplit('/') rows and
+                    # goes up by one on every iteration of that loop (and only there)
+                    ti = sym.subterms(sq[2], lambda y: y[0] == "call" and y[1].endswith("Rank::try_index"))
+                    idx = ti[0][2][0] if ti else None
+                    while idx is not None and idx[0] == "cast":
+                        idx = idx[2]
+                    if idx is not None and idx[0] == "hv":
+                        hdr, cname = idx[3], idx[2]
+                        snap = p.pre_loop.get((0, hdr), {})
+                        starts0 = snap.get((cname, ())) is not None and snap.get((cname, ()))[0] == "int" and snap.get((cname, ()))[1] == 0
+                        over_rows = any(v_ is not None and v_[0] == "call" and v_[1] == "str::rsplit" and v_[2][1] == ("int", 47, "char")
+                                        for (nm_, pth_), v_ in snap.items())
+                        steps = True
+                        nback = 0
+                        for q in pps:
+                            if q.end != "loopback":
+                                continue
+                            val = None
+                            for root, v_ in q.store.items():
+                                if root[0] == "L" and root[1] == 0 and pb.local_name(root[2]) == cname:
+                                    val = v_
+                            if q.end_bb == hdr:
+                                nback += 1
+                                steps = steps and val in (("bin", "Add", idx, ("int", 1, idx_ty(val))), ("bin", "Add", ("int", 1, idx_ty(val)), idx))
+                            elif val is not None and sym.contains(val, lambda y: y == idx):
+                                steps = steps and val == idx
+                        okr = starts0 and over_rows and steps and nback >= 1
                 okf = sq[0] == "sq" and sym.contains(sq[1], lambda y: y[0] == "call" and y[1].endswith("File::try_index"))
                 ctx.check(okr and okf, "reader:rank-from-last-row", "rank indices are not assigned from the last '/'-separated row (rsplit + enumerate) / files by a counter through File::try_index", loc(pb))
     ctx.floor("placement calls in the reader", nplace, 2)
@@ -381,7 +437,33 @@ def run(ctx):
                 sh = [c[1] for c in conds if c[0] == ("param", "shredder")]
                 lower = [c for c in conds if c[0][0] == "call" and c[0][1] == "char::to_ascii_lowercase" and isinstance(c[1], int)]
                 up = [c for c in conds if c[0][0] == "call" and c[0][1] == "char::is_ascii_uppercase"]
-                okcol = bool(up) and ((colour == ("enum", COLOR, "White")) == bool(up[-1][1]))
+                if up:
+                    is_up = bool(up[-1][1])
+                else:
+                    # case decided by comparing the letter with 'A'..'Z'
+                    from ..ranges import Ranger
+                    # the letter this call is about: named in the stored value, else the one examined last before the call
+                    lc = []
+                    for x_ in list(e.args[1:]):
+                        lc += sym.subterms(x_, lambda y: y[0] == "call" and y[1] == "char::to_ascii_lowercase")
+                    if not lc:
+                        for c_ in reversed(conds):
+                            lc = sym.subterms(c_[0], lambda y: y[0] == "call" and y[1] == "char::to_ascii_lowercase")
+                            if lc:
+                                break
+                    cv = lc[0][2][0] if lc else None
+                    while cv is not None and cv[0] in ("ref", "deref"):
+                        cv = cv[1]
+                    bd = Ranger(f, {cv: "char"}).bounds(cv, conds) if cv is not None else None
+                    is_up = None
+                    if bd is not None and None not in bd:
+                        if bd[0] > bd[1]:
+                            continue
+                        if 65 <= bd[0] and bd[1] <= 90:
+                            is_up = True
+                        elif bd[1] < 65 or bd[0] > 90:
+                            is_up = False
+                okcol = is_up is not None and ((colour == ("enum", COLOR, "White")) == is_up)
                 ctx.check(okcol, "reader:castle-case", "a castling letter's colour is not White exactly for upper-case", loc(cb))
                 if sh and sh[-1] == 0 and lower:
                     fileval = dict(val[4])["0"] if val[0] == "agg" else None
@@ -389,7 +471,8 @@ def run(ctx):
                 elif sh and sh[-1] == 1:
                     shred += 1
                     fileval = dict(val[4])["0"] if val[0] == "agg" else None
-                    via_table = fileval is not None and sym.contains(fileval, lambda y: y[0] == "call" and y[1].endswith("TryInto<U>>::try_into")) and \
+                    via_table = fileval is not None and sym.contains(fileval, lambda y: y[0] == "call" and (y[1].endswith("TryInto<U>>::try_into") or
+                                                                                                          (y[1].endswith("::try_from") and "file::File" in y[1]))) and \
                         sym.contains(fileval, lambda y: y[0] == "call" and y[1] == "char::to_ascii_lowercase")
                     from .c06 import natom
                     la, lpol = natom(L.lift(wing), 1)
